@@ -16,6 +16,7 @@ import (
 	"encoding/json"
 	"fmt"
 	"hash/fnv"
+	"os"
 	"sort"
 	"strings"
 	"sync"
@@ -346,7 +347,8 @@ func probes() []probe {
 			name: "split-same-length", finding: "", status: "guard",
 			what: "follower detached, both sides then log the same number of bytes (different commands), follower re-attached: the resume position must be found by checksum, not by size",
 			spec: caseSpec{Init: initEmpty, FirstSync: true, Settle: true,
-				Pre: padsCycling("pad", 22, 30000, 3),
+				// > 1 MiB: only then does the search compare the last window, where the two logs differ
+				Pre: padsCycling("pad", 40, 30000, 3),
 				Steps: []step{{Kind: stSplit,
 					Cmds:  [][]string{{"SET", "u1", "s0", "POINT", "11", "12"}, {"SET", "u1", "s1", "POINT", "13", "14"}},
 					LCmds: [][]string{{"SET", "k1", "t0", "POINT", "21", "22"}, {"SET", "k1", "t1", "POINT", "23", "24"}}}},
@@ -444,7 +446,7 @@ func TestC06_Faults(t *testing.T) {
 	o.noStarDigit = ev.KnownActive(findingCutInsideBulk)
 	o.noStaleSession = ev.KnownActive(findingStaleSession)
 	o.noBoundaryAt512K = ev.KnownActive(findingKeepsTail)
-	n := ev.Pick(48, 150)
+	n := ev.Pick(128, 150)
 	full := caseGen(genOpts{maxSteps: o.maxSteps})
 	g := caseGen(o)
 	var specs []caseSpec
@@ -468,6 +470,12 @@ func TestC06_Faults(t *testing.T) {
 		}
 		specs = append(specs, g.Example(seed))
 	}
+	if only := os.Getenv("C06_ONLY"); only != "" {
+		// debugging aid: run a single generated case
+		var i int
+		fmt.Sscan(only, &i)
+		specs = specs[i : i+1]
+	}
 	if o.noResyncFromZero {
 		c.Note("known finding %s active: generator restricted to cases in which a follower holding data never resumes at position 0 (logs >= 600 KiB before the first fault, first catch-up awaited, no unrelated initial state, no AOFSHRINK)", findingKeepsOldData)
 	}
@@ -483,7 +491,7 @@ func TestC06_Faults(t *testing.T) {
 	if o.noOwnHooks {
 		c.Note("known finding %s active: the follower never creates hooks/channels of its own, and no case mixes hook/channel commands with RENAME/RENAMENX", findingKeepsHooks)
 	}
-	runCases(t, c, specs, ev.Pick(10, 5), 25*time.Second)
+	runCases(t, c, specs, ev.Pick(24, 5), 25*time.Second)
 }
 
 func TestReplay(t *testing.T) {
